@@ -120,7 +120,15 @@ def jobs(tier, seed, excluded=()):
         names = [sl.name for sl in slots if sl.kind != "pick"]
         pairs = [(a, b) for a in names for b in names if a != b]
         rng.shuffle(pairs)
-        for a, b in pairs[:npairs]:
+        if new is None:
+            # every option is the first operation's target once (second target seeded)
+            chosen = [(a, rng.choice([b for b in names if b != a])) for a in names]
+            if tier == "quick" and not ren:
+                rng.shuffle(chosen)
+                chosen = chosen[: max(npairs, 4)]
+        else:
+            chosen = pairs[:npairs]
+        for a, b in chosen:
             sa = [sl for sl in slots if sl.name == a][0]
             sb = [sl for sl in slots if sl.name == b][0]
             ep = [("ok1", "int"), ("ov1", "int"), ("crash", "int"), ("short", "int"), ("ok2", "int"), ("ov2", "int")]
